@@ -88,6 +88,7 @@ fn refcount_order(order: [usize; 3])
     assert!(d.try_recv().is_none(), "C10: exactly once; another entity's live signal does not interfere");
     drop(other);
     assert!(d.try_recv() == Some(ent(99)));
+    kani::cover!(true, "end of harness reached");
 }
 #[kani::proof]
 #[kani::stub(core::any::TypeId::of, crate::vh::stub_typeid_of)]
